@@ -196,36 +196,84 @@ def check_dispatch(chk, ix):
     else:
         _fail(chk, "M4", f, "call args=%r kwargs=%r" % (got.get("args"), got.get("kwargs")),
               "Match.run calls the step function with %r / %r for arguments [anonymous pos1, named=kw1, anonymous pos2]" % (got.get("args"), got.get("kwargs")))
+    # M4 (text order) and M5 (span provenance) by evaluation on concrete match results
+    import re as _re
     pm = ix.cls("behave.matchers:ParseMatcher")
     cm = pm.lookup("check_match")
-    chk.instance("M4")
-    sorts = [n for n in ast.walk(cm.node) if isinstance(n, ast.Call) and isinstance(n.func, ast.Attribute) and n.func.attr == "sort"
-             and any(k.arg == "key" and "start" in unparse(k.value) for k in n.keywords)]
-    sorted_calls = [n for n in ast.walk(cm.node) if isinstance(n, ast.Call) and unparse(n.func) == "sorted" and any("start" in unparse(k.value) for k in n.keywords)]
-    if sorts or sorted_calls:
-        chk.ok("M4", {"ParseMatcher.check_match": "arguments ordered by start offset"}, nontrivial_key="sorted")
-    else:
-        _fail(chk, "M4", cm, "arguments not sorted by start", "ParseMatcher.check_match does not order the arguments by their start offset (text order)")
-    # M5
-    for n in ast.walk(cm.node):
-        if isinstance(n, ast.Call) and unparse(n.func) == "Argument":
-            chk.instance("M5")
-            a = [unparse(x) for x in n.args]
-            if len(a) >= 3 and a[2] == "step_text[%s:%s]" % (a[0], a[1]):
-                chk.ok("M5", {"site": "ParseMatcher.check_match", "original": a[2]}, nontrivial_key=("parse", a[3] if len(a) > 3 else ""))
-            else:
-                _fail(chk, "M5", cm, "Argument(%s)" % ", ".join(a), "Argument built with original=%s for span (%s, %s)" % (a[2] if len(a) > 2 else None, a[0], a[1]))
-    rm = ix.cls("behave.matchers:RegexMatcher").lookup("check_match")
-    for n in ast.walk(rm.node):
-        if isinstance(n, ast.Call) and unparse(n.func) == "Argument":
-            chk.instance("M5")
-            a = [unparse(x) for x in n.args]
-            ok = len(a) >= 3 and a[0].startswith("matched.start(") and a[1].startswith("matched.end(") and a[0][14:] == a[1][12:] and a[2] == "group"
-            if ok:
-                chk.ok("M5", {"site": "RegexMatcher.check_match", "span": [a[0], a[1]], "original": "the group text"}, nontrivial_key="regex")
-            else:
-                _fail(chk, "M5", rm, "Argument(%s)" % ", ".join(a), "regex Argument span/original do not belong to the same group: %s" % a)
-    chk.require_instances("M5", 3)
+    for title, spans_fixed, spans_named in (("fixed before named", {0: (2, 4)}, {"n": (7, 9)}), ("named before fixed", {0: (7, 9)}, {"n": (2, 4)}),
+                                            ("two fixed, one named in between", {0: (0, 1), 1: (7, 9)}, {"n": (2, 4)})):
+        text = "a 12 b xy"
+        made = []
+
+        def argument(i, s_, a, k, n, _m=made):
+            t = tuple(a) + ((k.get("name"),) if "name" in k else ())
+            _m.append(t)
+            return [(s_, "val", s_.alloc(HObj("ArgTok", {"start": a[0], "end": a[1], "original": a[2], "value": a[3],
+                                                         "name": (a[4] if len(a) > 4 else k.get("name"))}, label="argument")))]
+        it = Interp(ix, stubs={"Argument": argument}, name="ParseMatcher.check_match")
+        it.int_sat = 1000
+        it.list_cap = 100
+        st = State()
+        st.frames = []
+        spans = st.alloc(HObj("dict", kind="dict", items=list(spans_fixed.items()) + list(spans_named.items())))
+        result = st.alloc(HObj("ParseResultTok", {"fixed": tuple("F%d" % i for i in sorted(spans_fixed)),
+                                                  "named": st.alloc(HObj("dict", kind="dict", items=[(k_, "N:" + k_) for k_ in spans_named])),
+                                                  "spans": spans}, label="parse result"))
+        parser = st.alloc(HObj("ParserTok", {}, label="parser"))
+        it.stubs["ParserTok.parse"] = lambda i, s_, a, k, n: [(s_, "val", result)]
+        me = st.alloc(HObj(pm, {"parser": parser, "pattern": "p"}, label="matcher"))
+        outs = it.call_function(st, cm, [text], {}, None, self_val=me)
+        chk.absorb(it)
+        if len(outs) != 1 or outs[0][1] != "val" or not isinstance(outs[0][2], Ref):
+            raise AnalysisError("ParseMatcher.check_match not evaluable: %r" % ([(k, v) for _, k, v in outs][:2],))
+        s2 = outs[0][0]
+        got = [(s2.obj(r).fields["start"], s2.obj(r).fields["end"], s2.obj(r).fields["original"], s2.obj(r).fields["value"], s2.obj(r).fields["name"])
+               for r in s2.obj(outs[0][2]).items]
+        want = sorted([(b, e, text[b:e], "F%d" % i, None) for i, (b, e) in spans_fixed.items()] +
+                      [(b, e, text[b:e], "N:" + k_, k_) for k_, (b, e) in spans_named.items()])
+        chk.instance("M4")
+        chk.instance("M5")
+        if [g[0] for g in got] == [w[0] for w in want]:
+            chk.ok("M4", {"ParseMatcher.check_match": title, "argument starts": [g[0] for g in got]}, nontrivial_key=("order", title))
+        else:
+            _fail(chk, "M4", cm, "%s: starts %s" % (title, [g[0] for g in got]), "ParseMatcher.check_match (%s) returns the arguments with start offsets %s: "
+                  "anonymous parameters would be passed in another order than they stand in the step text" % (title, [g[0] for g in got]))
+        if sorted(got) == want:
+            chk.ok("M5", {"site": "ParseMatcher.check_match", "case": title, "arguments": [list(g) for g in got]}, nontrivial_key=("parse", title))
+        else:
+            _fail(chk, "M5", cm, "%s: %r" % (title, got), "ParseMatcher.check_match (%s) builds the arguments %r; expected %r (original = step_text[start:end] of "
+                  "the argument's own span, value and name of the same field)" % (title, got, want))
+    rmc = ix.cls("behave.matchers:RegexMatcher")
+    rm = rmc.lookup("check_match")
+    from .abscall import ReVal
+    for pattern, text in ((r"^a (\d+) b (?P<name>\w+)( opt)?$", "a 12 b xy opt"), (r"^a (\d+) b (?P<name>\w+)( opt)?$", "a 1 b z"),
+                          (r"^(?P<x>\w+)-(\w+)$", "left-right")):
+        made = []
+        it = Interp(ix, stubs={"Argument": lambda i, s_, a, k, n, _m=made: (_m.append(tuple(a) + ((k["name"],) if "name" in k else ())), [(s_, "val", "ARG%d" % len(_m))])[1]},
+                    attr_stubs={"RegexMatcher.regex": lambda i, s_, b, n, _p=pattern: [(s_, "val", ReVal(_p))]}, name="RegexMatcher.check_match")
+        it.fold_regex = True
+        it.int_sat = 1000
+        it.list_cap = 100
+        st = State()
+        st.frames = []
+        me = st.alloc(HObj(rmc, {"pattern": pattern}, label="regex matcher"))
+        outs = it.call_function(st, rm, [text], {}, None, self_val=me)
+        chk.absorb(it)
+        chk.instance("M5")
+        if len(outs) != 1 or outs[0][1] != "val":
+            raise AnalysisError("RegexMatcher.check_match not foldable on %r: %r" % (text, [(k, v) for _, k, v in outs][:2]))
+        m_ = _re.match(pattern, text)
+        names = {v: k for k, v in m_.re.groupindex.items()}
+        want = [(m_.start(i), m_.end(i), g, g, names.get(i)) for i, g in enumerate(m_.groups(), 1)]
+        got = [tuple(list(t) + [None] * (5 - len(t))) for t in made]
+        if any(isinstance(x, Top) for t in got for x in t):
+            raise AnalysisError("RegexMatcher.check_match not foldable on %r: %r" % (text, got))
+        if got == want:
+            chk.ok("M5", {"site": "RegexMatcher.check_match", "pattern": pattern, "text": text, "arguments": [list(g) for g in got]}, nontrivial_key=("regex", pattern, text))
+        else:
+            _fail(chk, "M5", rm, "%r on %r: %r" % (pattern, text, got), "RegexMatcher.check_match for %r on %r builds the arguments %r; the groups are %r "
+                  "(span, text and name of one and the same group, all groups in order)" % (pattern, text, got, want))
+    chk.require_instances("M5", 6)
 
 
 def check_fulltext(chk, ix):
